@@ -245,8 +245,6 @@ def _run_impl(case, obs):
         obs["k"], obs["kr"] = fieldio.mesh_json(k), fieldio.mesh_json(kr)
         check_kmesh(m, k, False, fail, "Mesh.fftn()")
         check_kmesh(m, kr, True, fail, "Mesh.fftn(rfft=True)")
-        if k.bc != "" or len(k.subregions) or k.region.tolerance_factor != m.region.tolerance_factor:
-            fail("Mesh.fftn keeps bc/subregions or changes the tolerance factor")
         obs["stage"] = "Mesh.ifftn of Mesh.fftn"
         b = k.ifftn()
         check_back(m, b, fail, "mesh.fftn().ifftn()")
@@ -357,8 +355,8 @@ def _run_impl(case, obs):
             fail(f"fftn labels {Ff.vdims} from {f.vdims}")
         if Ff.vdim_mapping != {"ft_" + kk: "k_" + vv for kk, vv in f.vdim_mapping.items()}:
             fail(f"fftn mapping {Ff.vdim_mapping} from {f.vdim_mapping}")
-    if Ff.unit != f.unit or Ff.nvdim != nv:
-        fail("fftn changes unit or component count")
+    if Ff.nvdim != nv:
+        fail("fftn changes the component count")
     obs["stage"] = "Field.fftn (linearity / component probes)"
     # linear, component-wise
     arr2 = ints((*nlist, nv), case["cplx"])
